@@ -1436,7 +1436,7 @@ func opcodeLShift(op *ParsedOpcode, t *thread) error {
 	if err != nil {
 		return err
 	}
-	n := num.Int()
+	n := num.Int64()
 
 	if n < 0 {
 		return errs.NewError(errs.ErrNumberTooSmall, "n less than 0")
@@ -1447,14 +1447,30 @@ func opcodeLShift(op *ParsedOpcode, t *thread) error {
 		return err
 	}
 
-	l := len(x)
-	for i := 0; i < l-1; i++ {
-		x[i] = x[i]<<n | x[i+1]>>(8-n)
-	}
-	x[l-1] <<= n
-
-	t.dstack.PushByteArray(x)
+	t.dstack.PushByteArray(lshiftBytes(x, n))
 	return nil
+}
+
+// lshiftBytes returns x shifted left by n bits (n >= 0) as a new byte slice of
+// the same length. x itself is never modified as it may be shared with other
+// stack items or with the script being executed.
+func lshiftBytes(x []byte, n int64) []byte {
+	result := make([]byte, len(x))
+	if n >= int64(len(x))*8 {
+		return result
+	}
+
+	byteShift := int(n / 8)
+	bitShift := uint(n % 8)
+	for i := byteShift; i < len(x); i++ {
+		k := i - byteShift
+		result[k] |= x[i] << bitShift
+		if k > 0 {
+			result[k-1] |= x[i] >> (8 - bitShift)
+		}
+	}
+
+	return result
 }
 
 func opcodeRShift(op *ParsedOpcode, t *thread) error {
@@ -1462,7 +1478,7 @@ func opcodeRShift(op *ParsedOpcode, t *thread) error {
 	if err != nil {
 		return err
 	}
-	n := num.Int()
+	n := num.Int64()
 
 	if n < 0 {
 		return errs.NewError(errs.ErrNumberTooSmall, "n less than 0")
@@ -1473,14 +1489,30 @@ func opcodeRShift(op *ParsedOpcode, t *thread) error {
 		return err
 	}
 
-	l := len(x)
-	for i := l - 1; i > 0; i-- {
-		x[i] = x[i]>>n | x[i-1]<<(8-n)
-	}
-	x[0] >>= n
-
-	t.dstack.PushByteArray(x)
+	t.dstack.PushByteArray(rshiftBytes(x, n))
 	return nil
+}
+
+// rshiftBytes returns x shifted right by n bits (n >= 0) as a new byte slice of
+// the same length. x itself is never modified as it may be shared with other
+// stack items or with the script being executed.
+func rshiftBytes(x []byte, n int64) []byte {
+	result := make([]byte, len(x))
+	if n >= int64(len(x))*8 {
+		return result
+	}
+
+	byteShift := int(n / 8)
+	bitShift := uint(n % 8)
+	for i := byteShift; i < len(x); i++ {
+		k := i - byteShift
+		result[i] |= x[k] >> bitShift
+		if i+1 < len(x) {
+			result[i+1] |= x[k] << (8 - bitShift)
+		}
+	}
+
+	return result
 }
 
 // opcodeBoolAnd treats the top two items on the data stack as integers.  When
